@@ -174,6 +174,24 @@ impl St {
                                     }
                                 }
                                 Step::Search => {}
+                                Step::FindMid | Step::RFindMid => {
+                                    if lo < hi {
+                                        let mid = lo + (hi - lo) / 2;
+                                        let target = before[mid].0;
+                                        let front = matches!(st, Step::FindMid);
+                                        let mut f = |t: &Tracked| t.raw_id() == target;
+                                        let got = if front { d.position_dyn(&mut f) } else { d.rposition_dyn(&mut f) };
+                                        if got != Some(mid - lo) {
+                                            return Err(format!("drain {}(middle element) returned {:?}, expected {:?}", if front { "position" } else { "rposition" }, got, Some(mid - lo)));
+                                        }
+                                        // everything passed over (and the match itself) has been consumed and destroyed
+                                        if front {
+                                            lo = mid + 1
+                                        } else {
+                                            hi = mid
+                                        }
+                                    }
+                                }
                                 Step::Count => {
                                     let c = d.count_rest();
                                     if c != hi - lo {
